@@ -1605,6 +1605,24 @@ func genFreshServer(n int) {
 	bad := 0
 	for it := 0; it < n; it++ {
 		srv := c2.NewServer(nil)
+		restored := it%8 == 7
+		if restored {
+			// a Server whose key pair was saved as text and restored with Parse: the private key is
+			// chosen to hold one of the bytes 0x10, 0x0F, 0x00, 0x11, 0xA0 (a generated key has each
+			// with probability about 0.23)
+			want := []byte{0x10, 0x0F, 0x00, 0x11, 0xA0}[(it/8)%5]
+			var k data.KeyPair
+			for j := 0; j < 200; j++ {
+				if k.Fill(); bytes.IndexByte(k.Private[:], want) >= 0 {
+					break
+				}
+			}
+			ps, bs := k.Private.String(), k.Public.String()
+			e1, e2 := srv.Keys.Private.Parse(ps), srv.Keys.Public.Parse(bs)
+			if e1 != nil || e2 != nil {
+				recordFail("the text form of a generated key pair does not parse", "key-text-roundtrip:private", map[string]interface{}{"private_text": ps, "public_text": bs})
+			}
+		}
 		l, err := srv.Listen("c06", "127.0.0.1:0", cfg.Static{L: com.TCP})
 		if err != nil {
 			recordFail("fresh server: Listen failed: "+err.Error(), "fresh-server-setup", nil)
@@ -1648,6 +1666,12 @@ func genFreshServer(n int) {
 		out.Count("fresh-server", fmt.Sprint(it), true)
 		if herr != nil || ss == nil || cshare != sshare || !ss.VerifC06Synced() {
 			bad++
+			if restored {
+				desc["scenario"] = "c2.Server whose Keys were restored with Parse from the String forms of a generated pair; Listen; hello"
+				recordFail("right after the registration handshake with a Server whose key pair was restored from its text form the two ends do not hold the same shared secret",
+					"handshake-server-keys-restored-from-text", desc)
+				continue
+			}
 			recordFail("right after the registration handshake with a fresh Server the two ends do not hold the same shared secret (the hello was handled before the Server had generated its key pair)",
 				"handshake-server-keys-not-ready", desc)
 			continue
@@ -1664,6 +1688,123 @@ func genFreshServer(n int) {
 	}
 	out.Extra("fresh_server_handshakes", n)
 	out.Extra("fresh_server_handshakes_disagreeing", bad)
+}
+
+// ---------------------------------------------------------------- 7. the persisted forms of a key
+
+func hexVal(c byte) int {
+	switch {
+	case c >= '0' && c <= '9':
+		return int(c - '0')
+	case c >= 'a' && c <= 'f':
+		return int(c-'a') + 10
+	case c >= 'A' && c <= 'F':
+		return int(c-'A') + 10
+	}
+	return -1
+}
+
+// digitsOf turns "AB:0C:..." into the Coq list of digit pairs; "" if the text is not of that shape.
+func digitsOf(text string, n int) string {
+	if len(text) != n*3-1 {
+		return ""
+	}
+	items := make([]string, 0, n)
+	for i := 0; i < len(text); i += 3 {
+		h, l := hexVal(text[i]), hexVal(text[i+1])
+		if h < 0 || l < 0 || (i+2 < len(text) && text[i+2] != ':') {
+			return ""
+		}
+		items = append(items, fmt.Sprintf("(%d,%d)", h, l))
+	}
+	return vh.List(items)
+}
+
+var textChecks int
+
+// textRoundTrip: every persisted form the package offers must give back exactly the key bytes:
+// PublicKey/PrivateKey String -> Parse, KeyPair Marshal -> Unmarshal (public, private, share),
+// KeyPair Write -> Read (public only).  emit: also compare String() with the model (CHex).
+func textRoundTrip(k data.KeyPair, class string, emit bool) {
+	textChecks++
+	desc := map[string]interface{}{"fn": "PrivateKey/PublicKey String+Parse, KeyPair Marshal+Unmarshal, Write+Read", "private": ints(k.Private[:]), "public": ints(k.Public[:])}
+	func() {
+		defer func() {
+			if x := recover(); x != nil {
+				recordFail("a persisted form of a key panicked: "+fmt.Sprint(x), "key-text-panic", desc)
+			}
+		}()
+		var (
+			pv     data.PrivateKey
+			pb     data.PublicKey
+			ps, bs = k.Private.String(), k.Public.String()
+		)
+		if err := pv.Parse(ps); err != nil || pv != k.Private {
+			desc["private_text"] = ps
+			recordFail("PrivateKey.String followed by Parse does not give back the private key", "key-text-roundtrip:private", desc)
+		}
+		if err := pb.Parse(bs); err != nil || pb != k.Public {
+			desc["public_text"] = bs
+			recordFail("PublicKey.String followed by Parse does not give back the public key", "key-text-roundtrip:public", desc)
+		}
+		var (
+			c  data.Chunk
+			k2 data.KeyPair
+			k3 data.KeyPair
+		)
+		if err := k.Marshal(&c); err != nil {
+			recordFail("KeyPair.Marshal failed: "+err.Error(), "key-text-roundtrip:marshal", desc)
+		} else if err = k2.Unmarshal(&c); err != nil || k2.Public != k.Public || k2.Private != k.Private || k2.Shared() != k.Shared() {
+			recordFail("KeyPair.Marshal followed by Unmarshal does not give back the pair", "key-text-roundtrip:marshal", desc)
+		}
+		var c2k data.Chunk
+		if err := k.Write(&c2k); err != nil {
+			recordFail("KeyPair.Write failed: "+err.Error(), "key-text-roundtrip:write", desc)
+		} else if err = k3.Read(&c2k); err != nil || k3.Public != k.Public {
+			recordFail("KeyPair.Write followed by Read does not give back the public key", "key-text-roundtrip:write", desc)
+		}
+		if emit {
+			if d := digitsOf(ps, len(k.Private)); d != "" {
+				out.Add(fmt.Sprintf("CHex %s %s", vh.Bytes(k.Private[:]), d), class+"-private", true, desc)
+			} else {
+				recordFail("PrivateKey.String is not colon separated hex of the right length", "key-text-shape", desc)
+			}
+			if d := digitsOf(bs, len(k.Public)); d != "" {
+				out.Add(fmt.Sprintf("CHex %s %s", vh.Bytes(k.Public[:]), d), class+"-public", true, desc)
+			} else {
+				recordFail("PublicKey.String is not colon separated hex of the right length", "key-text-shape", desc)
+			}
+		} else {
+			out.Count(class, fmt.Sprint(textChecks), true)
+		}
+	}()
+}
+
+// genKeyText: generated pairs, and private keys crafted to hold each byte value 0x00..0xFF at the
+// first, a middle and the last position (the public half is then arbitrary bytes: the text form does
+// not care); plus pairs with a synced share for Marshal.
+func genKeyText(nGen int) {
+	for i := 0; i < nGen; i++ {
+		var k data.KeyPair
+		k.Fill()
+		if i%2 == 0 {
+			var sh data.SharedKeys
+			copy(sh[:], rng.Bytes(65))
+			data.VerifC06SetShare(&k, sh)
+		}
+		textRoundTrip(k, "key-text-generated", i < 40)
+	}
+	for v := 0; v < 256; v++ {
+		for pi, pos := range []int{0, 33, 65} {
+			var k data.KeyPair
+			copy(k.Private[:], rng.Bytes(len(k.Private)))
+			copy(k.Public[:], rng.Bytes(len(k.Public)))
+			k.Private[pos] = byte(v)
+			k.Public[(pos*2)%len(k.Public)] = byte(v)
+			textRoundTrip(k, "key-text-crafted", pi == v%3)
+		}
+	}
+	out.Extra("key_text_round_trips", textChecks)
 }
 
 func main() {
@@ -1683,6 +1824,11 @@ func main() {
 		np, nf = 20, 300
 	}
 	genFreshServer(nf)
+	nk := 120
+	if thorough {
+		nk = 2000
+	}
+	genKeyText(nk)
 	genPick(np)
 	t0 := time.Now()
 	genHistories(thorough)
